@@ -420,9 +420,14 @@ def update (s : PoolState) (m : Option MResponse) (err : Bool) : PoolState :=
   let m' := m.map normalize
   let layout := match m' with | some x => makeLayout x | none => Cluster.zero
   if err then
-    if s.metadata.isSome then s else { s with err := true }
+    -- what the error branch writes is regenerated (`Gen.Routing.updateErrorKeepsKnown`, `updateErrorStoresErr`)
+    if KV.Gen.Routing.updateErrorKeepsKnown && s.metadata.isSome then s
+    else { s with err := if KV.Gen.Routing.updateErrorStoresErr then true else s.err }
   else
-    { metadata := m', layout := layout, err := false,
+    -- … and so is what the success branch writes (`updateSuccessSetsMetadata/Layout`, `updateSuccessClearsErr`)
+    { metadata := if KV.Gen.Routing.updateSuccessSetsMetadata then m' else s.metadata,
+      layout := if KV.Gen.Routing.updateSuccessSetsLayout then layout else s.layout,
+      err := if KV.Gen.Routing.updateSuccessClearsErr then false else s.err,
       conns := applySets KV.Gen.Routing.updateApplyOrder s.conns (delSet s.layout.brokers layout.brokers)
         ((addSet s.layout.brokers layout.brokers).map (fun id => (id, (lookupD layout.brokers id Broker.zero).addr))) }
 
